@@ -285,4 +285,22 @@ theorem full_run {s : State} (hi : Inv s) (hf : Full s) (ops : List Op) (hd : Di
   | nil => exact hf
   | cons op ops ih => exact ih (inv_step hi op hd.1) (full_step hi hf op) hd.2
 
+theorem mem_drop_iff {s : State} (hi : Inv s) (h : Header) :
+    h ∈ s.sched.drop s.ret.length ↔ h ∈ s.sched ∧ s.offset ≤ h.num := by
+  constructor
+  · intro hm
+    obtain ⟨i, hi'⟩ := List.mem_iff_getElem?.mp hm
+    rw [List.getElem?_drop] at hi'
+    have := hi.schedNum _ _ hi'
+    exact ⟨List.mem_iff_getElem?.mpr ⟨_, hi'⟩, by rw [hi.offsetEq]; omega⟩
+  · rintro ⟨hm, hlo⟩
+    obtain ⟨i, hi'⟩ := List.mem_iff_getElem?.mp hm
+    have := hi.schedNum _ _ hi'
+    have hoff := hi.offsetEq
+    apply List.mem_iff_getElem?.mpr
+    refine ⟨i - s.ret.length, ?_⟩
+    rw [List.getElem?_drop]
+    have : s.ret.length + (i - s.ret.length) = i := by omega
+    rw [this]; exact hi'
+
 end YouVerif.C18
